@@ -36,6 +36,10 @@ fn corpus(tier: Tier) -> Vec<(String, PProblem)> {
         let step = (candidates.len() / per.max(1)).max(1);
         out.extend(candidates.into_iter().step_by(step).take(per).map(|p| (name.to_string(), p)));
     }
+    // recharge stations: acceptance and mutants (the oracle replays them fully)
+    let rc = family_recharge();
+    let step = tier.pick(6, 1);
+    out.extend(rc.into_iter().step_by(step).map(|p| ("recharge".to_string(), p)));
     // required breaks: acceptance only (the oracle does not replay the schedule around a break taken on the road)
     let req = family_reqbreak();
     let step = tier.pick(4, 1);
